@@ -95,6 +95,15 @@ void Logger::processMessage(QtMsgType type, const QMessageLogContext &context,
 
     LogMessage lmsg(type, context, message);
     process(lmsg);
+
+    // Qt aborts the process right after a fatal message: nothing would flush the buffered
+    // sinks any more. (In asynchronous mode the sinks belong to the logger thread.)
+    if (type == QtFatalMsg) {
+#ifndef QTLOGGER_NO_THREAD
+        if (!ownThreadIsRunning())
+#endif
+            flush();
+    }
     QTLOGGER_VERIF_POINT("logger.pm.processed");
 }
 
